@@ -21,7 +21,7 @@ package testscript
 
 // expansion: ${NAME@R} is the regexp-quoted value of NAME, anything else the value itself
 //@ func (*TestScript).expand
-//@   requires ts != nil && ts.envMap != nil
+//@   requires ts != nil
 //@   pure
 //@ extern os.Expand(s, mapping) (r)
 //@   pure
@@ -62,12 +62,30 @@ package testscript
 // checked where the process is started.
 //@ pure func envExtends(child []string, n int) bool = n >= 0
 //@ extern (*os/exec.Cmd).Start(c) (err)
-//@   modifies nothing
+//@   modifies gStarted
+//@   ensures err == nil ==> gStarted == old(gStarted) + 1 && c.Process != nil
+//@   ensures err != nil ==> gStarted == old(gStarted)
 //@ func (*TestScript).execBackground
 //@   requires ts != nil && ts.envMap != nil
+//@   modifies F_S_testscript_TestScript_stdin, F_S_exec_Cmd_*, F_S_strings_Builder_*, F_S_strings_Reader_*, H_Str, new H_*, gStarted
+//@   ensures result1 == nil ==> result0 != nil && result0.Process != nil && gStarted == old(gStarted) + 1
+//@   ensures result1 != nil ==> gStarted == old(gStarted)
+//@   ensures gReaped == old(gReaped)
 //@   at call (*exec.Cmd).Start#1: requires c.Dir == ts.cd && len(c.Env) == len(ts.env) + 1 && (forall K {at(c.Env,K)} :: lo(c.Env) <= K && K < lo(c.Env) + len(ts.env) ==> sameStr(at(c.Env,K), at(ts.env, lo(ts.env) + K - lo(c.Env))))
+// the pty helpers of exec (copy goroutines, deferred close) start and reap no process
+//@ func exec$1
+//@   trusted
+//@   pure
+//@ func exec$2
+//@   trusted
+//@   pure
+//@ func exec$3
+//@   trusted
+//@   modifies F_S_testscript_TestScript_ttyin, F_S_testscript_TestScript_ttyout
 //@ func (*TestScript).exec
 //@   requires ts != nil && ts.envMap != nil
+//@   modifies F_S_testscript_TestScript_stdin, F_S_testscript_TestScript_stdinPty, F_S_testscript_TestScript_ttyin, F_S_testscript_TestScript_ttyout, F_S_exec_Cmd_*, F_S_strings_Builder_*, F_S_strings_Reader_*, H_Str, new H_*, gStarted, gReaped, gWaitedCmd
+//@   ensures gStarted - gReaped == old(gStarted) - old(gReaped)
 //@   at call (*exec.Cmd).Start#1: requires c.Dir == ts.cd && len(c.Env) == len(ts.env) + 1 && (forall K {at(c.Env,K)} :: lo(c.Env) <= K && K < lo(c.Env) + len(ts.env) ==> sameStr(at(c.Env,K), at(ts.env, lo(ts.env) + K - lo(c.Env))))
 //@ extern github.com/rogpeppe/go-internal/internal/os/execpath.Look(file, getenv) (r, err)
 //@   pure
@@ -83,10 +101,19 @@ package testscript
 //@   ensures err == nil ==> pty != nil && tty != nil
 //@ extern github.com/rogpeppe/go-internal/testscript/internal/pty.SetCtty(cmd, tty)
 //@   pure
-// waitOrStop waits for the started process (C17's subject; not verified here): no modelled state changes
-//@ func waitOrStop
+// waitOrStop returns only after cmd.Wait has returned (when and how the process is
+// signalled is C17's subject and is not specified here).
+//@ extern (context.Context).Done(c) (r)
+//@   pure
+//@ func waitOrStop$1
 //@   trusted
 //@   pure
+//@ func waitOrStop
+//@   requires cmd != nil
+//@   allowpanic
+//@   modifies gReaped, gWaitedCmd
+//@   ensures gReaped == old(gReaped) + 1 && gWaitedCmd[cmd]
+//@   ensures forall p int {gWaitedCmd[p]} :: old(gWaitedCmd)[p] ==> gWaitedCmd[p]
 
 // ---- C16: UpdateScripts ----
 //@ property C16: (*TestScript).doCmdCmp, (*TestScript).Check, (*TestScript).MkAbs, (*TestScript).applyScriptUpdates
@@ -189,18 +216,68 @@ package testscript
 //@   requires ts != nil
 //@   modifies F_*, H_*, fs*, fd*, M*
 //@   ensures ts.params == old(ts.params) && ts.envMap != nil && ts.archive == old(ts.archive) && ts.scriptUpdates == old(ts.scriptUpdates) && (forall K {at(ts.background,K)} :: lo(ts.background) <= K && K < hi(ts.background) ==> at(ts.background,K).cmd != nil)
-//@ func (*TestScript).setup
+// setup: the script's environment is built from a literal list; the host environment is
+// consulted only through os.Getenv for PATH, GOCOVERDIR and GORACE (never os.Environ);
+// every archive file is written below the work directory through MkAbs, with O_EXCL
+// exactly when RequireUniqueNames is set.
+//@ func homeEnvName
 //@   trusted
-//@   requires ts != nil
-//@   modifies F_*, H_*, fs*, fd*, M*
-//@   ensures !ts.stopped && ts.envMap != nil && ts.scriptUpdates != nil && ts.archive != nil && len(ts.background) == 0
+//@   pure
+//@ func tempEnvName
+//@   trusted
+//@   pure
+//@ func writeFile
+//@   trusted
+//@   modifies fs*, fd*, failBudget
+//@ extern github.com/rogpeppe/go-internal/txtar.ParseFile(file) (a, err)
+//@   modifies new F_S_txtar_Archive_*, new H_*
+//@   ensures err == nil ==> a != nil && fresh(a)
+//@ extern os.Getenv(key) (r)
+//@   pure
+//@ func setup$1
+//@   trusted
+//@   noreturn
+//@ func (*TestScript).setup
+//@   requires ts != nil && ts.scriptFiles != nil && !ts.stopped && ts.scriptUpdates != nil && len(ts.background) == 0
+//@   nocall os.Environ
+//@   callee ts.params.Setup(env) (err): modifies F_S_testscript_Env_*, F_S_testscript_TestScript_deferred, H_Str, fs*, fd*, failBudget
+//@   modifies F_S_testscript_TestScript_workdir, F_S_testscript_TestScript_cd, F_S_testscript_TestScript_archive, F_S_testscript_TestScript_env, F_S_testscript_TestScript_envMap, F_S_testscript_TestScript_values, F_S_testscript_TestScript_deferred, F_S_testscript_Env_*, new F_S_txtar_Archive_*, H_*, fs*, fd*, M*, failBudget
+//@   at call os.Getenv#1: requires key == "PATH"
+//@   at call field:ts.params.Setup#1: requires env != nil && 10 <= len(env.Vars) && len(env.Vars) <= 12 && sameStr(env.WorkDir, ts.workdir) && sameStr(env.Cd, ts.workdir) && env.ts == ts
+//@   at call field:ts.params.Setup#1: requires at(env.Vars, lo(env.Vars)+2) == "GOTRACEBACK=system" && at(env.Vars, lo(env.Vars)+8) == "$=$"
+//@   at call field:ts.params.Setup#1: requires len(at(env.Vars, lo(env.Vars))) == 5 + len(ts.workdir) && at(at(env.Vars, lo(env.Vars)), lo(at(env.Vars, lo(env.Vars)))) == 'W' && at(at(env.Vars, lo(env.Vars)), lo(at(env.Vars, lo(env.Vars))) + 4) == '='
+//@   ensures sameSlice(ts.env, env.Vars)
+//@   ensures sameStr(ts.cd, env.Cd)
+//@   ensures ts.params.Setup == nil ==> 10 <= len(ts.env) && len(ts.env) <= 12 && at(ts.env, lo(ts.env)+2) == "GOTRACEBACK=system"
+//@   at call os.Getenv#2: requires key == "GOCOVERDIR" || key == "GORACE"
+//@   at call testscript.writeFile#1: requires excl == ts.params.RequireUniqueNames && sameSlice(data, f.Data)
+//@   loop 1: invariant -1 <= rangeindex && rangeindex < 2
+//@   loop 1: invariant env != nil && 9 <= len(env.Vars) && len(env.Vars) <= 10 + rangeindex && sameStr(env.WorkDir, ts.workdir) && sameStr(env.Cd, ts.workdir) && env.ts == ts
+//@   loop 1: invariant at(env.Vars, lo(env.Vars)+2) == "GOTRACEBACK=system" && at(env.Vars, lo(env.Vars)+8) == "$=$"
+//@   loop 1: invariant len(at(env.Vars, lo(env.Vars))) == 5 + len(ts.workdir) && at(at(env.Vars, lo(env.Vars)), lo(at(env.Vars, lo(env.Vars)))) == 'W' && at(at(env.Vars, lo(env.Vars)), lo(at(env.Vars, lo(env.Vars))) + 4) == '='
+//@   loop 2: invariant -1 <= rangeindex
+//@   loop 3: invariant -1 <= rangeindex
+//@   ensures !ts.stopped && ts.scriptUpdates != nil && len(ts.background) == 0
+//@   ensures ts.envMap != nil && ts.archive != nil
 //@ func (*TestScript).cmdEnv
 //@   trusted
 //@   pure
+// waitBackground: every recorded background command's wait channel has been received from
+// (so, by cmdExec$1, its Wait has returned) before the list is cleared.
+//@ extern (*os.ProcessState).Success(p) (r)
+//@   pure
+//@ extern (*strings.Builder).String(b) (r)
+//@   pure
 //@ func (*TestScript).waitBackground
-//@   trusted
-//@   modifies F_*, H_*
-//@   ensures ts.params == old(ts.params) && ts.stopped == old(ts.stopped) && ts.envMap == old(ts.envMap) && ts.archive == old(ts.archive) && ts.scriptUpdates == old(ts.scriptUpdates) && (forall K {at(ts.background,K)} :: lo(ts.background) <= K && K < hi(ts.background) ==> at(ts.background,K).cmd != nil)
+//@   requires ts != nil
+//@   requires forall K {at(ts.background,K)} :: lo(ts.background) <= K && K < hi(ts.background) ==> at(ts.background,K).cmd != nil
+//@   nosafety
+//@   assume_typeasserts
+//@   modifies F_S_testscript_TestScript_stdout, F_S_testscript_TestScript_stderr, F_S_testscript_TestScript_background, H_Str
+//@   loop 1: invariant -1 <= rangeindex && sameSlice(ts.background, old(ts.background))
+//@   loop 1: invariant forall K {at(old(ts.background),K)} :: lo(old(ts.background)) <= K && K <= lo(old(ts.background)) + rangeindex ==> gRecv[at(old(ts.background),K).wait]
+//@   ensures len(ts.background) == 0
+//@   ensures forall K {at(old(ts.background),K)} :: lo(old(ts.background)) <= K && K < hi(old(ts.background)) ==> gRecv[at(old(ts.background),K).wait]
 //@ func interruptProcess
 //@   trusted
 //@   pure
@@ -210,12 +287,28 @@ package testscript
 //@ func run$2
 //@   trusted
 //@   modifies F_S_testscript_TestScript_start
-//@ func run$3
+// run's background clean-up (registered first, so it runs last): on both of its
+// branches every recorded background command has been waited for and the list is empty.
+//@ func (*TestScript).abbrev
 //@   trusted
-//@   modifies F_*, H_*
+//@   pure
+//@ extern (*bytes.Buffer).String(b) (r)
+//@   pure
+//@ func run$3
+//@   requires ts != nil
+//@   requires forall K {at(ts.background,K)} :: lo(ts.background) <= K && K < hi(ts.background) ==> at(ts.background,K).cmd != nil
+//@   callee markTime(): modifies F_S_testscript_TestScript_start
+//@   modifies F_S_testscript_TestScript_stdout, F_S_testscript_TestScript_stderr, F_S_testscript_TestScript_background, F_S_testscript_TestScript_start, H_Str
+//@   loop 1: invariant -1 <= rangeindex
+//@   loop 2: invariant -1 <= rangeindex && sameSlice(ts.background, old(ts.background))
+//@   loop 2: invariant forall K {at(old(ts.background),K)} :: lo(old(ts.background)) <= K && K <= lo(old(ts.background)) + rangeindex ==> gRecv[at(old(ts.background),K).wait]
+//@   ensures len(ts.background) == 0
+//@   ensures forall K {at(old(ts.background),K)} :: lo(old(ts.background)) <= K && K < hi(old(ts.background)) ==> gRecv[at(old(ts.background),K).wait]
+// run$4 calls the user-registered clean-up chain (arbitrary code; assumed not to touch the background list)
 //@ func run$4
 //@   trusted
 //@   modifies F_*, H_*, fs*, fd*, M*
+//@   ensures forall K {at(ts.background,K)} :: lo(ts.background) <= K && K < hi(ts.background) ==> at(ts.background,K).cmd != nil
 
 // runLine: an unknown command never reaches the dispatcher; every index of args is in bounds.
 // (Its boolean result is produced by recover in catchFailNow: false exactly when Fatalf ran.)
@@ -235,11 +328,15 @@ package testscript
 // stop; PASS is logged only for a run that neither failed nor stopped; run returns
 // normally only if no line failed (otherwise FailNow, which does not return).
 //@ func (*TestScript).run
-//@   requires ts != nil
+//@   requires ts != nil && ts.scriptFiles != nil && !ts.stopped && ts.scriptUpdates != nil && len(ts.background) == 0
+//@   modifies F_*, H_*, fs*, fd*, M*, g*, failBudget, clock
 //@   callee rewind(): pure
 //@   callee markTime(): modifies F_S_testscript_TestScript_start
 //@   at call (*testscript.TestScript).runLine#1: requires (!failed || ts.params.ContinueOnError) && !ts.stopped
 //@   at call fmt.Fprintf#3: requires !failed && !ts.stopped
+//@   at call (*testscript.TestScript).setup#1: requires deferIndex("run$3") == 0 && deferIndex("run$4") == 1
+//@   at call (*testscript.TestScript).runLine#1: requires deferIndex("run$3") == 0 && deferIndex("run$4") == 1 && deferIndex("(*testscript.TestScript).applyScriptUpdates") == 2
+//@   at call (github.com/rogpeppe/go-internal/testscript.T).FailNow#0: requires deferIndex("run$3") == 0 && deferIndex("run$4") == 1 && deferIndex("(*testscript.TestScript).applyScriptUpdates") == 2
 //@   loop 1: invariant failed ==> ts.params.ContinueOnError
 //@   loop 1: invariant !ts.stopped
 //@   loop 1: invariant ts != nil && ts.envMap != nil && ts.archive != nil && ts.scriptUpdates != nil
@@ -280,3 +377,68 @@ package testscript
 //@   modifies H_Str, new bytes
 //@   ensures neg ==> !matchP(re, my_text)
 //@   ensures !neg ==> matchP(re, my_text) && (n > 0 ==> countP(re, my_text) == n)
+
+// ---- C04: isolation and clean-up ----
+//@ property C04: (*TestScript).setup, (*TestScript).run, run$3, (*TestScript).waitBackground, (*TestScript).cmdExec, cmdExec$1, waitOrStop, (*TestScript).exec, (*TestScript).execBackground, (*TestScript).Defer, Defer$1, RunT$1, RunT$1$2, removeAll
+
+// Defer: the new chain runs f first and the old chain afterwards, and the old chain is
+// already deferred when f is called (so it runs even if f panics): LIFO.
+//@ ghost var gDeferRan Int
+//@ func (*TestScript).Defer
+//@   requires ts != nil
+//@   modifies F_S_testscript_TestScript_deferred, new C_Int
+//@   ensures isClosure(ts.deferred, "Defer$1") && capturedInt(ts.deferred, 0) == old(ts.deferred) && capturedInt(ts.deferred, 1) == f
+//@ func Defer$1
+//@   callee f(): modifies gDeferRan; ensures gDeferRan == old(gDeferRan) + 1
+//@   callee old(): modifies gDeferRan; ensures gDeferRan == old(gDeferRan) + 100
+//@   modifies gDeferRan
+//@   at call field:f#1: requires deferIndex("dynamic:old") == 0 && gDeferRan == old(gDeferRan)
+//@   ensures gDeferRan == old(gDeferRan) + 101
+
+// removeAll: the tree removed is the one asked for.
+//@ extern path/filepath.WalkDir(root, fn) (err)
+//@   pure
+//@ func removeAll
+//@   modifies fsExists, gTreeRemoved
+//@   at call os.RemoveAll#1: requires path == dir
+//@   ensures gTreeRemoved[sid(dir)]
+
+// The per-script closure: a fresh TestScript, the clean-up deferred before run starts.
+//@ extern (github.com/rogpeppe/go-internal/testscript.T).Parallel(t)
+//@   pure
+//@ func RunT$1
+//@   modifies F_*, H_*, fs*, fd*, M*, g*, failBudget, clock, C_Int
+//@   at call (*testscript.TestScript).run#1: requires fresh(ts) && deferIndex("RunT$1$2") == 0
+//@   at call (*testscript.TestScript).run#1: requires ts.testTempDir == testTempDir && ts.name == name && ts.file == file && ts.deferred != nil
+
+// The clean-up: unless retention was requested the script's work directory is removed,
+// and the shared root is removed (and the context cancelled) exactly by the closure
+// that brings the count of unfinished scripts to zero.
+//@ func RunT$1$2
+//@   requires ts != nil
+//@   callee cancel(): pure
+//@   modifies fsExists, gTreeRemoved, gCleanup, failBudget, C_Int
+//@   at call testscript.removeAll#1: requires dir == ts.workdir && !p.TestWork && !C_Bool[testWork]
+//@   at call os.Remove#1: requires name == testTempDir && refCount == 0 && gTreeRemoved[sid(ts.workdir)]
+//@   ensures p.TestWork ==> refCount == old(refCount) && fsExists == old(fsExists)
+//@   ensures !p.TestWork && !C_Bool[testWork] ==> gTreeRemoved[sid(ts.workdir)] && refCount == old(refCount) - 1
+//@   ensures C_Bool[testWork] ==> refCount == old(refCount) && fsExists == old(fsExists)
+
+// Background processes: a started process is recorded in ts.background before anything
+// can stop the script, and its wait channel is closed only after Wait has returned.
+//@ func (*TestScript).findBackground
+//@   requires ts != nil
+//@   pure
+//@ extern (context.Context).Err(c) (r)
+//@   pure
+//@ func cmdExec$1
+//@   requires ts != nil && cmd != nil
+//@   modifies gReaped, gWaitedCmd
+//@   at call close#1: requires gWaitedCmd[cmd] && arg0 == wait
+//@ func (*TestScript).cmdExec
+//@   requires ts != nil && ts.envMap != nil
+//@   requires forall K {at(ts.background,K)} :: lo(ts.background) <= K && K < hi(ts.background) ==> at(ts.background,K).cmd != nil
+//@   modifies F_*, H_*, M*, gStarted, gReaped, gWaitedCmd
+//@   at call (*testscript.TestScript).Fatalf#0: requires gStarted - gReaped - len(ts.background) == old(gStarted) - old(gReaped) - old(len(ts.background))
+//@   ensures gStarted - gReaped - len(ts.background) == old(gStarted) - old(gReaped) - old(len(ts.background))
+//@   ensures forall K {at(ts.background,K)} :: lo(ts.background) <= K && K < hi(ts.background) ==> at(ts.background,K).cmd != nil
